@@ -197,7 +197,7 @@ Definition reach_ok (fuel : nat) (S : schema) (frs : list fragdef) (ms : list st
   end.
 
 Fixpoint sels_okM (fuel : nat) (cov : bool) (C : cfg) (S : schema) (frs : list fragdef)
-         (top nested : bool) (rt r : string) (sels : list sel) : bool :=
+         (top abs : bool) (rt r : string) (sels : list sel) : bool :=
   match fuel with
   | O => false
   | Datatypes.S g =>
@@ -210,7 +210,7 @@ Fixpoint sels_okM (fuel : nat) (cov : bool) (C : cfg) (S : schema) (frs : list f
              | None => false
              end
            else true) &&
-          forallb (field_ok (sels_okM g cov C S frs true true) g cov S nested rt r) fns &&
+          forallb (field_ok (sels_okM g cov C S frs true) g cov S abs rt r) fns &&
           forallb (fun m => match lookup_frag frs m with
                             | Some fm =>
                                 (match fr_mixins fm with [] => true | _ => false end) &&
@@ -233,8 +233,8 @@ Definition mixin_ok (g : nat) (cov : bool) (C : cfg) (S : schema) (frs : list fr
   | None => false
   end.
 
-Lemma sels_okM_S g cov C S frs top nested rt r sels :
-  sels_okM (Datatypes.S g) cov C S frs top nested rt r sels =
+Lemma sels_okM_S g cov C S frs top abs rt r sels :
+  sels_okM (Datatypes.S g) cov C S frs top abs rt r sels =
   match flattenM g S frs rt r false sels with
   | Some (fns, ms) =>
       (if top then
@@ -243,19 +243,19 @@ Lemma sels_okM_S g cov C S frs top nested rt r sels :
          | None => false
          end
        else true) &&
-      forallb (field_ok (sels_okM g cov C S frs true true) g cov S nested rt r) fns &&
+      forallb (field_ok (sels_okM g cov C S frs true) g cov S abs rt r) fns &&
       forallb (mixin_ok g cov C S frs rt) ms &&
       reach_ok g S frs ms
   | None => false
   end.
 Proof. reflexivity. Qed.
 
-Lemma sels_okM_inv g cov C S frs top nested rt r sels :
-  sels_okM g cov C S frs top nested rt r sels = true ->
+Lemma sels_okM_inv g cov C S frs top abs rt r sels :
+  sels_okM g cov C S frs top abs rt r sels = true ->
   exists g' fns ms, g = Datatypes.S g' /\ flattenM g' S frs rt r false sels = Some (fns, ms) /\
     (top = true -> exists l, collect g' S frs rt false sels = Some l /\ keys_ok C (map n_key l) = true /\
                              (cov = true -> NoDup (map (py_field_name C) (map n_key l)))) /\
-    forallb (field_ok (sels_okM g' cov C S frs true true) g' cov S nested rt r) fns = true /\
+    forallb (field_ok (sels_okM g' cov C S frs true) g' cov S abs rt r) fns = true /\
     forallb (mixin_ok g' cov C S frs rt) ms = true /\
     reach_ok g' S frs ms = true.
 Proof.
@@ -270,12 +270,12 @@ Proof.
 Qed.
 
 (* without spreads the mixin guard gives what abstract positions need *)
-Lemma sels_okM_ok_inv g cov C S frs : forall rt r sels,
-  sels_okM g cov C S frs true true rt r sels = true -> no_spread g sels = true ->
+Lemma sels_okM_ok_inv g cov C S frs : forall b rt r sels,
+  sels_okM g cov C S frs true b rt r sels = true -> no_spread g sels = true ->
   exists g' fns, flatten g' S frs rt r sels = Some fns /\ keys_ok C (map field_key fns) = true /\
                  (cov = true -> NoDup (map (fun f => py_field_name C (field_key f)) fns)).
 Proof.
-  intros rt r sels H Hns.
+  intros b rt r sels H Hns.
   destruct (sels_okM_inv _ _ _ _ _ _ _ _ _ _ H) as [g' [fns [ms [_ [Hfl [Htop _]]]]]].
   destruct (Htop eq_refl) as [l [Hc [Hk Hn]]].
   destruct (flattenM_both_ex S frs rt _ _ _ _ _ _ Hfl g' (le_n _)) as [Hres _].
@@ -304,7 +304,7 @@ Lemma level_invM C S frs fuel pub cn rt r sels at_ tv out pub' g fns ms :
   (at_ = true -> has_typename sels = true) ->
   exists f2 pfl extra kept,
     fuel = Datatypes.S f2 /\
-    fields_run (parse_type_def fuel C S frs) C S frs fuel cn r tv fns (pub ++ [cn]) pfl extra pub' false /\
+    fields_run (parse_type_def fuel C S frs) C S frs fuel cn r tv at_ fns (pub ++ [cn]) pfl extra pub' false /\
     incl kept ms /\ remove_inherited fuel S frs ms = Ok kept /\
     out = {| c_name := cn; c_bases := class_bases ms kept []; c_fields := pfl |} :: extra.
 Proof.
@@ -351,15 +351,15 @@ Section Mix.
                 (forall n', n' >= F + g + 1 -> forall pf, In pf pfs ->
                             field_check (accepts n' cls (schema_enums S)) kv pf = true).
 
-  Theorem mix_main : forall g fuel pub cn rt r sels at_ tv top nested out pub' k l N kv fc,
+  Theorem mix_main : forall g fuel pub cn rt r sels at_ tv top out pub' k l N kv fc,
     fuel <= F -> parse_type_def fuel C S frs pub cn r sels at_ [] tv = Ok (out, pub', false) ->
-    sels_okM g cov C S frs top nested rt r sels = true -> tv_ok nested rt tv ->
+    sels_okM g cov C S frs top at_ rt r sels = true -> tv_ok rt tv ->
     (at_ = true -> has_typename sels = true) -> table_ok cls out ->
     collect k S frs rt false sels = Some l -> incl l N -> amb N rt kv fc ->
     class_good g cn kv.
   Proof.
     induction g as [|g IH];
-      intros fuel pub cn rt r sels at_ tv top nested out pub' k l N kv fc HF Hp Hok Htv Hat Htab Hcol HlN Hamb;
+      intros fuel pub cn rt r sels at_ tv top out pub' k l N kv fc HF Hp Hok Htv Hat Htab Hcol HlN Hamb;
       [discriminate Hok|].
     destruct (sels_okM_inv _ _ _ _ _ _ _ _ _ _ Hok) as [g' [fns [ms [Eg [Hfl [_ [Hfields [Hmix _]]]]]]]].
     inversion Eg; subst g'. clear Eg.
@@ -384,7 +384,7 @@ Section Mix.
         destruct (G2 fm Hfin Hun) as [outm [pubm [Hrunm Hinm]]]. rewrite Emx, Hfn in Hrunm.
         destruct (Hmixn m Hm) as [fm' [k' [lm [Elf' [Hcm Hilm]]]]].
         unfold lookup_frag in Elf'. rewrite Elf in Elf'. inversion Elf'; subst fm'.
-        eapply (IH F [] (pascal_s m) rt (fr_on fm) (fr_sel fm) false None false false outm pubm k' lm N kv fc);
+        eapply (IH F [] (pascal_s m) rt (fr_on fm) (fr_sel fm) false None false outm pubm k' lm N kv fc);
           eauto.
         + left; reflexivity.
         + discriminate.
@@ -403,7 +403,7 @@ Section Mix.
       assert (HFF : Forall2 (field_facts C (accepts (Datatypes.S n1) cls (schema_enums S)) kv) fns pfl).
       { eapply (level_facts C S frs fuel' g cov cls (accepts (Datatypes.S n1) cls (schema_enums S)) (fun _ => True)
                             class_accepts (accepts n1 cls (schema_enums S)) (mro_fields n1 cls)
-                            (sels_okM g cov C S frs true true) (sels_okM_ok_inv g cov C S frs))
+                            (sels_okM g cov C S frs true) (sels_okM_ok_inv g cov C S frs))
           with (K := map n_key N) (k := fc);
           try eassumption; try reflexivity; auto.
         - intros m j H1 H2. apply (scalar_leaf_accepts C S); auto.
@@ -421,7 +421,7 @@ Section Mix.
           rewrite conf_obj_nodes in P6 by (eapply keys_ok_nodup; eauto).
           simpl in P6. apply andb_true_iff in P6 as [Q1 Q2]. rewrite forallb_forall in Q1, Q2.
           assert (Hgood : class_good g cn2 kv2).
-          { eapply (IH fuel' pb cn2 rt2 r2 sels2 at2 (Some tvs) true true out2 pub2 fc2 l2 l2 kv2 fc2); eauto.
+          { eapply (IH fuel' pb cn2 rt2 r2 sels2 at2 (Some tvs) true out2 pub2 fc2 l2 l2 kv2 fc2); eauto.
             - lia.
             - right. eauto.
             - apply incl_refl.
@@ -479,7 +479,7 @@ Proof.
   rewrite conf_obj_nodes in Hc by (eapply keys_ok_nodup; eauto).
   simpl in Hc. apply andb_true_iff in Hc as [Q1 Q2]. rewrite forallb_forall in Q1, Q2.
   assert (Hgood : class_good S F cls g (pascal_s name) kv).
-  { eapply (mix_main C S frs F cls cov Hnd Hnb G2 g F [] (pascal_s name) root root sels false None true false
+  { eapply (mix_main C S frs F cls cov Hnd Hnb G2 g F [] (pascal_s name) root root sels false None true
                      own pub' k l l kv k); eauto.
     - left; reflexivity.
     - discriminate.
